@@ -107,7 +107,9 @@ structure Indexer where
   /-- `none`: single-phase `ChemicalIndexer`; `some phases`: `MaterialIndexer` -/
   phases : Option (List Char)
   data : List Row
-  deriving Repr, Inhabited
+  /-- `indexer.phase` of a single-phase indexer (unused for a `MaterialIndexer`) -/
+  phase : Char := 'l'
+  deriving Repr, Inhabited, DecidableEq
 
 /-- `IDs` part of the key (what `__setitem__` passes on as `key`). -/
 def idsPart : HKey → HKey
@@ -183,6 +185,8 @@ def World.putCaches (w : World) (ix : Indexer) (s' : CState) (mc' : MCache) : Wo
              | none => w.mcaches
              | some ps => ainsert (ix.chem, ps) mc' w.mcaches }
 
+def World.putIx (w : World) (i : Nat) (ix' : Indexer) : World := { w with ixs := w.ixs.set i ix' }
+
 def World.setData (w : World) (i : Nat) (ix : Indexer) (data : List Row) : World :=
   { w with ixs := w.ixs.set i { ix with data := data } }
 
@@ -198,13 +202,13 @@ inductive Op where
   | compile (specs : List Spec)
   | alias (c : Nat) (id alias : String)
   | group (c : Nat) (name : String) (ids : List String) (comp : Option (List Rat))
-  | newChemIx (c : Nat)
+  | newChemIx (c : Nat) (phase : Char)
   | newMatIx (c : Nat) (phases : List Char)
   | get (ix : Nat) (key : PyKey)
   | set (ix : Nat) (key : PyKey) (d : Data)
-  /-- `left.copy_like(right)` between single-phase indexers -/
+  /-- `left.copy_like(right)` -/
   | copyLike (left right : Nat)
-  /-- `left.mix_from([left, right])` between single-phase indexers -/
+  /-- `left.mix_from([left, right])` -/
   | mixFrom (left right : Nat)
   deriving Repr, Inhabited
 
@@ -215,32 +219,112 @@ inductive Out where
   | phases (ps : List Char)
   | val (v : Val)
   | data (rows : List Row)
+  /-- phases (or phase) and data of the receiver after `copy_like` / `mix_from` -/
+  | state (ix : Indexer)
   | err (e : Err)
   deriving Repr, Inhabited, DecidableEq
 
-def newChemIndexer (c : Nat) (size : Nat) : Indexer := ⟨c, none, [List.replicate size 0]⟩
+def newChemIndexer (c : Nat) (size : Nat) (ph : Char) : Indexer := ⟨c, none, [List.replicate size 0], ph⟩
 def newMatIndexer (c : Nat) (size : Nat) (pt : List Char) : Indexer :=
-  ⟨c, some pt, List.replicate pt.length (List.replicate size 0)⟩
+  ⟨c, some pt, List.replicate pt.length (List.replicate size 0), 'l'⟩
 
-/-- Cross-package transfer between single-phase indexers through `index_overlap`. -/
+/-! ### Transfers between indexers of the same chemicals object: phases may grow in place -/
+
+def zeroRow (size : Nat) : Row := List.replicate size 0
+
+/-- `phase_tuple(set(phases) | set(new))` -/
+def unionPhases (ps new : List Char) : List Char := validPhases.filter fun p => p ∈ ps ∨ p ∈ new
+
+/-- `_expand_phases`: the rows follow the grown, re-sorted phase tuple; new phases get empty rows. -/
+def expandRows (size : Nat) (ps ps' : List Char) (data : List Row) : List Row :=
+  ps'.map fun p =>
+    match idxOf p ps with
+    | some i => data.getD i (zeroRow size)
+    | none => zeroRow size
+
+/-- `phase in self._phase_indexer` (exact label or case variant). -/
+def containsPhase (ps : List Char) (c : Char) : Bool := (phaseIndex ps c).isSome
+
+def lowerPhase : Char → Char
+  | 'S' => 's' | 'L' => 'l' | 'G' => 'g'
+  | c => c
+
+/-- `scp_data[label].append(row)` … `sv.mix_from(scp_data[phase])`. -/
+def addInto (ps : List Char) (data : List Row) (label : Char) (row : Row) : List Row :=
+  match phaseIndex ps label with
+  | some p => data.set p (addRows (data.getD p []) row)
+  | none => data
+
+/-- `rows[phase_indexer(label)].copy_like(row)`. -/
+def setInto (ps : List Char) (data : List Row) (label : Char) (row : Row) : List Row :=
+  match phaseIndex ps label with
+  | some p => data.set p row
+  | none => data
+
+/-- The (phase, row) pairs an indexer contributes. -/
+def sources (ir : Indexer) : List (Char × Row) :=
+  match ir.phases with
+  | none => [(ir.phase, ir.data.getD 0 [])]
+  | some psR => psR.zip ir.data
+
+/-- `left.copy_like(right)` (`add = false`) / `left.mix_from([left, right])` (`add = true`) between
+indexers of the *same* chemicals object; `none`: outside the modelled domain.  A multi-phase
+receiver grows in place when the source carries a phase it lacks (and, for `copy_like` from a
+multi-phase source, is not "compatible" with it); afterwards it is bound to the memo of its
+*new* phase tuple, because the memo is looked up by `(chemicals, phases)` of the indexer. -/
+def transferSame (size : Nat) (il ir : Indexer) (add self : Bool) : Option Indexer :=
+  match il.phases with
+  | none =>
+    match ir.phases, il.data, ir.data with
+    | none, [rowL], [rowR] =>
+      some { il with data := [if add then addRows rowL rowR else rowR],
+                     phase := if add then il.phase else ir.phase }
+    | _, _, _ => none
+  | some ps =>
+    if self then some (if add then { il with data := il.data.map fun r => addRows r r } else il) else
+    let src := sources ir
+    let labels := src.map (·.1)
+    if add then
+      let ps' := if labels.all (containsPhase ps) then ps else unionPhases ps labels
+      let base := expandRows size ps ps' il.data
+      some { il with phases := some ps',
+                     data := src.foldl (fun d (x : Char × Row) => addInto ps' d x.1 x.2) base }
+    else
+      match ir.phases with
+      | none =>
+        let ps' := if containsPhase ps ir.phase then ps else unionPhases ps [ir.phase]
+        some { il with phases := some ps',
+                       data := setInto ps' (ps'.map fun _ => zeroRow size) ir.phase (ir.data.getD 0 []) }
+      | some psR =>
+        if ps = psR then some { il with data := ir.data } else
+        let ps' := if ps.map lowerPhase = psR.map lowerPhase then ps else unionPhases ps psR
+        some { il with phases := some ps',
+                       data := src.foldl (fun d (x : Char × Row) => setInto ps' d x.1 x.2)
+                                 (ps'.map fun _ => zeroRow size) }
+
+/-- `copy_like` / `mix_from` between two indexers: within one chemicals object through
+`transferSame`, across two (single-phase only) through `index_overlap`. -/
 def World.transfer (w : World) (l r : Nat) (add : Bool) : World × Out :=
   match w.ixs[l]?, w.ixs[r]? with
   | some il, some ir =>
     match w.chems[il.chem]?, w.chems[ir.chem]? with
     | some sl, some sr =>
-      match il.phases, ir.phases, il.data, ir.data with
-      | none, none, [rowL], [rowR] =>
-        if il.chem = ir.chem then
-          let row' := if add then addRows rowL rowR else rowR
-          (w.setData l il [row'], .data [row'])
-        else
+      if il.chem = ir.chem then
+        match transferSame sl.chem.size il ir add (l == r) with
+        | some il' => (w.putIx l il', .state il')
+        | none => (w, .err .typeError)
+      else
+        match il.phases, ir.phases, il.data, ir.data with
+        | none, none, [rowL], [rowR] =>
           let rix := nonzeroPositions rowR
           let (res, sl') := sl.overlap (rix.map fun i => sr.cas.getD i "")
           let w' := { w with chems := w.chems.set il.chem sl' }
           match transferRow rowL rowR add rix res with
-          | (row', some e) => (w'.setData l il [row'], .err e)
-          | (row', none) => (w'.setData l il [row'], .data [row'])
-      | _, _, _, _ => (w, .err .typeError)
+          | (row', some e) => (w'.putIx l { il with data := [row'] }, .err e)
+          | (row', none) =>
+            (w'.putIx l { il with data := [row'], phase := if add then il.phase else ir.phase },
+             .state { il with data := [row'], phase := if add then il.phase else ir.phase })
+        | _, _, _, _ => (w, .err .typeError)
     | _, _ => (w, .err .indexError)
   | _, _ => (w, .err .indexError)
 
@@ -267,10 +351,10 @@ def World.step (w : World) : Op → World × Out
       | .error e => (w, .err e)
       | .ok chem' =>
         (w.redefine c { s with chem := chem' } true, .pos ((alookup name chem'.index).getD (.pos 0)))
-  | .newChemIx c =>
+  | .newChemIx c ph =>
     match w.chems[c]? with
     | none => (w, .err .indexError)
-    | some s => ({ w with ixs := w.ixs ++ [newChemIndexer c s.chem.size] }, .ok)
+    | some s => ({ w with ixs := w.ixs ++ [newChemIndexer c s.chem.size ph] }, .ok)
   | .newMatIx c ps =>
     match w.chems[c]?, phaseTuple ps with
     | some s, some pt => ({ w with ixs := w.ixs ++ [newMatIndexer c s.chem.size pt] }, .phases pt)
@@ -320,6 +404,8 @@ structure PWorld where
 /-- What is left of a world when the memo dictionaries are forgotten. -/
 def World.obs (w : World) : PWorld := { chems := w.chems.map fun s => (s.chem, s.cas), ixs := w.ixs }
 
+def PWorld.putIx (p : PWorld) (i : Nat) (ix' : Indexer) : PWorld := { p with ixs := p.ixs.set i ix' }
+
 def PWorld.setData (p : PWorld) (i : Nat) (ix : Indexer) (data : List Row) : PWorld :=
   { p with ixs := p.ixs.set i { ix with data := data } }
 
@@ -328,17 +414,20 @@ def PWorld.transfer (p : PWorld) (l r : Nat) (add : Bool) : PWorld × Out :=
   | some il, some ir =>
     match p.chems[il.chem]?, p.chems[ir.chem]? with
     | some cl, some cr =>
-      match il.phases, ir.phases, il.data, ir.data with
-      | none, none, [rowL], [rowR] =>
-        if il.chem = ir.chem then
-          let row' := if add then addRows rowL rowR else rowR
-          (p.setData l il [row'], .data [row'])
-        else
+      if il.chem = ir.chem then
+        match transferSame cl.1.size il ir add (l == r) with
+        | some il' => (p.putIx l il', .state il')
+        | none => (p, .err .typeError)
+      else
+        match il.phases, ir.phases, il.data, ir.data with
+        | none, none, [rowL], [rowR] =>
           let rix := nonzeroPositions rowR
           match transferRow rowL rowR add rix (overlapPositions cl.1 (rix.map fun i => cr.2.getD i "")) with
-          | (row', some e) => (p.setData l il [row'], .err e)
-          | (row', none) => (p.setData l il [row'], .data [row'])
-      | _, _, _, _ => (p, .err .typeError)
+          | (row', some e) => (p.putIx l { il with data := [row'] }, .err e)
+          | (row', none) =>
+            (p.putIx l { il with data := [row'], phase := if add then il.phase else ir.phase },
+             .state { il with data := [row'], phase := if add then il.phase else ir.phase })
+        | _, _, _, _ => (p, .err .typeError)
     | _, _ => (p, .err .indexError)
   | _, _ => (p, .err .indexError)
 
@@ -362,10 +451,10 @@ def PWorld.step (p : PWorld) : Op → PWorld × Out
       match chem.defineGroup name ids comp with
       | .error e => (p, .err e)
       | .ok chem' => ({ p with chems := p.chems.set c (chem', cas) }, .pos ((alookup name chem'.index).getD (.pos 0)))
-  | .newChemIx c =>
+  | .newChemIx c ph =>
     match p.chems[c]? with
     | none => (p, .err .indexError)
-    | some (chem, _) => ({ p with ixs := p.ixs ++ [newChemIndexer c chem.size] }, .ok)
+    | some (chem, _) => ({ p with ixs := p.ixs ++ [newChemIndexer c chem.size ph] }, .ok)
   | .newMatIx c ps =>
     match p.chems[c]?, phaseTuple ps with
     | some (chem, _), some pt => ({ p with ixs := p.ixs ++ [newMatIndexer c chem.size pt] }, .phases pt)
